@@ -10,7 +10,8 @@ from fractions import Fraction
 
 import numpy as np
 
-from realcode import BASIS_WIRE, real_name, wire_name, make_pulse, make_wf, adjusted_duration
+from realcode import (BASIS_WIRE, real_name, wire_name, make_pulse, make_wf, adjusted_duration,
+                      doc_rise_time, doc_phase_jump_time)
 from seqcheck import Fail, LIMIT_ERRS, TYPESTATE_ERRS
 
 from pulser import Pulse
@@ -37,6 +38,12 @@ class Monitor:
 
     def F(self, clause, msg, **key):
         return Fail(self.prop, clause, msg, key)
+
+
+def configured_eom_buffer(ch) -> int:
+    """The documented EOM buffer length: the custom buffer time of the EOM configuration when
+    one is set, twice the channel's rise time otherwise (computed from public attributes only)."""
+    return int(ch.eom_config.custom_buffer_time or 2 * doc_rise_time(ch))
 
 
 def valid_gap(ch, g: int) -> bool:
@@ -941,9 +948,9 @@ class MonC03(Monitor):
                 if sl[0] != "P":
                     continue
                 HYP["pulses"] += 1
-                if sl[4] > 2 * och.rise_time or (och.supports_eom() and sl[5] > 2 * och.eom_config.rise_time):
+                if sl[4] > 2 * doc_rise_time(och) or (och.supports_eom() and sl[5] > 2 * doc_rise_time(och.eom_config)):
                     fails.append(self.F("fall-hypothesis-A1", f"{oname}: fall times ({sl[4]}, {sl[5]}) exceed twice the rise time "
-                                        f"({och.rise_time}, {och.eom_config.rise_time if och.supports_eom() else '-'})", op=k))
+                                        f"({doc_rise_time(och)}, {doc_rise_time(och.eom_config) if och.supports_eom() else '-'})", op=k))
                 if och.supports_eom() and sl[5] > sl[4]:
                     HYP["A2_false"] += 1
         ch = pre["ch"]
@@ -984,7 +991,7 @@ class MonC03(Monitor):
                 last_p = next((s for s in reversed(pre["slots"]) if s[0] == "P" and not s[6]), None)
                 if last_p is not None and not mod2pi_close(last_p[7], float(Fraction(pulses[-1]["ph"])), 0.0):
                     fall = last_p[5] if pre["in_eom"] else last_p[4]
-                    buf = max(ch.phase_jump_time, 2 * ch.rise_time * int(pre["in_eom"])) + fall - (t0 - last_p[2])
+                    buf = max(doc_phase_jump_time(ch), 2 * doc_rise_time(ch) * int(pre["in_eom"])) + fall - (t0 - last_p[2])
                 need = max([t0, B] + ends) - t0
                 want = t0 + least_valid_gap(ch, max(need, buf))
                 if ti_new != want:
@@ -1055,12 +1062,13 @@ class MonC10(Monitor):
                 ph_new = float(Fraction(pulses[-1]["ph"]))
                 if last_p[7] != ph_new:
                     fall = last_p[5] if pre["in_eom"] else last_p[4]
-                    base = max(ch.phase_jump_time, 2 * ch.eom_config.rise_time) if pre["in_eom"] else ch.phase_jump_time
+                    base = (max(doc_phase_jump_time(ch), 2 * doc_rise_time(ch.eom_config)) if pre["in_eom"]
+                            else doc_phase_jump_time(ch))
                     gap = pulses[-1]["ti"] - last_p[2]
                     if gap < base + fall:
                         fails.append(self.F("phase-jump-gap", f"pulses of phase {last_p[7]} and {ph_new} are {gap} ns apart, "
                                             f"need phase-jump time {base} + fall {fall}", op=k, in_eom=pre["in_eom"],
-                                            eom_slower=bool(pre["in_eom"] and ch.eom_config.rise_time > ch.rise_time)))
+                                            eom_slower=bool(pre["in_eom"] and doc_rise_time(ch.eom_config) > doc_rise_time(ch))))
         else:  # target / declare with initial target
             ch = (pre or {}).get("ch") or ls.real.chobj(op["ch"])
             if ch is None or ch.addressing != "Local":
@@ -1243,7 +1251,7 @@ class MonC15(Monitor):
             # (c) buffers: non-empty channel -> (fall wait,) then a buffer of adjust(buffer_time)
             t0 = pre["end"]
             if t0 > 0:
-                want_buf = least_valid_gap(ch, ch._eom_buffer_time)
+                want_buf = least_valid_gap(ch, configured_eom_buffer(ch))
                 fall_wait = 0
                 if k == "eomon":
                     fall = end_with_fall(pre) - t0
@@ -1260,7 +1268,7 @@ class MonC15(Monitor):
                 fails.append(self.F("block-end", f"block closed at {b.tf}, channel end was {t0}", op=k))
             after = sch.slots[-1].tf - t0
             if ch.eom_config.custom_buffer_time:
-                want = least_valid_gap(ch, ch._eom_buffer_time)
+                want = least_valid_gap(ch, configured_eom_buffer(ch))
             else:
                 # fall wait evaluated outside EOM mode (the block is closed first)
                 a2 = dict(pre, in_eom=False)
